@@ -3,13 +3,30 @@ use crate::rt::*;
 
 pub fn run(ctx: &Ctx, st: &mut Local) {
     match ctx.property {
+        "C01" => crate::props_file::run_c01(ctx, st),
         "C02" => crate::props_stream::run_c02(ctx, st),
         "C03" => crate::props_stream::run_c03(ctx, st),
+        "C04" => crate::props_misc::run_c04(ctx, st),
         "C05" => crate::props_stream::run_c05(ctx, st),
+        "C06" => crate::props_file::run_c06(ctx, st),
         "C07" => crate::props_stream::run_c07(ctx, st),
+        "C08" => crate::props_misc::run_c08(ctx, st),
+        "C09" => crate::props_misc::run_c09(ctx, st),
+        "C10" => crate::props_misc::run_c10(ctx, st),
+        "C11" => crate::props_file::run_c11(ctx, st),
+        "C12" => crate::props_file::run_c12(ctx, st),
+        "C13" => crate::props_file::run_c13(ctx, st),
+        "C14" => crate::props_c14::run_c14(ctx, st),
         p => {
             eprintln!("unknown property {}", p);
             std::process::exit(2);
         }
+    }
+}
+
+/// judgements that need the merged statistics of all workers
+pub fn finalize(property: &str, total: &mut Local) {
+    if property == "C09" {
+        crate::props_misc::finalize_c09(total);
     }
 }
